@@ -60,7 +60,7 @@ def gen_knobs(ch):
 def gen_net(ch):
     return {"threads": ch.pick("config", "threads", ["sync", "sync", "async"]), "lat_profile": ch.pick("config", "lat_profile", ["uniform", "uniform", "heavy", "fifo"]),
             "jitter": ch.pick("config", "jitter", [0.0005, 0.05, 0.5]),
-            "base_lat": 0.001}
+            "base_lat": 0.001, "batch": ch.pick("config", "batch", [0, 0, 0, 0.001, 0.02, 0.3])}
 
 
 def gen_encoding(ch, tier, max_n=16):
@@ -980,6 +980,7 @@ def exec_layout(case):
         # --- reader grid view: a fresh client connected only to the first nservers servers
         g.net.profile = cfg["net"]["lat_profile"]
         g.net.jitter = cfg["net"]["jitter"]
+        g.net.batch = cfg["net"].get("batch", 0) or 0
         g.set_threads(cfg["net"].get("threads"))
         rd = g.add_client(k=3, happy=1, n=10, connect=False)
         for s in servers:
@@ -1649,6 +1650,7 @@ def exec_checkrepair(case):
             probe("mut-" + kind)
         g.net.profile = cfg["net"]["lat_profile"]
         g.net.jitter = cfg["net"]["jitter"]
+        g.net.batch = cfg["net"].get("batch", 0) or 0
         g.set_threads(cfg["net"].get("threads"))
         # the checking/repairing client knows only the verify-cap; it is connected to the layout servers
         # plus the spare servers (repair needs somewhere to put new shares)
